@@ -1022,7 +1022,7 @@ class C17(CaseSpec):
         """free-running smoke test: a stall is a deadlock (never a known finding)"""
         res = {}
         for fl in self.flavours:
-            for scen in ("queries", "disconnect", "traversals", "isolate"):
+            for scen in ("queries", "disconnect", "traversals", "isolate", "crossing"):
                 try:
                     rc, out = vlib.sh([vlib.HARNESS_BIN, "stress", fl, scen, "1500"], timeout=30)
                 except Exception as e:       # the stress binary itself hung
